@@ -1,9 +1,10 @@
 package c08
 
-// Fixed seeds: the minimal reproduction of every listed finding that has a
-// proposed repair in fq itself, on real decode values (msgpack documents
-// decoded inside the query).  While the defect is listed they are counted as
-// known findings; once it is repaired and the line removed they are plain
+// Fixed seeds: the minimal reproduction of every finding that is repaired
+// (signature regression:*, never listed) or has a proposed repair in fq itself
+// (props/c08/fix*.diff), on real decode values (msgpack / json documents
+// decoded inside the query).  While a defect is listed its seeds are counted
+// as known findings; once it is repaired and the line removed they are plain
 // regression tests.
 
 import (
@@ -24,7 +25,7 @@ type seed struct {
 
 var seeds = []seed{
 	{"diff:length:number~dv", `[0xd0, 0xff] | tobytes | msgpack | .value`, `length`},
-	{"diff:length:number~dv", `[0xd3, 0x80, 0, 0, 0, 0, 0, 0, 0] | tobytes | msgpack | .value`, `[length, (length | tojson)]`},
+	{"diff:length:number~dv", `[0xd2, 0x80, 0, 0, 0] | tobytes | msgpack | .value`, `[length, (length | tojson)]`},
 	{"diff:length:number~dv", `[0xcb, 0xc0, 0x04, 0, 0, 0, 0, 0, 0] | tobytes | msgpack | .value`, `length`},
 	{"diff:index:null~dv", `[0xc0] | tobytes | msgpack | .value`, `.[0]`},
 	{"diff:index:null~dv", `[0xc0] | tobytes | msgpack | .value`, `.[-1]`},
